@@ -217,9 +217,13 @@ def expected_tree(block, cfg, base, mask, path, sens_paths, where):
 
 
 def where_class(where):
-    lists = [w for w in where if w in ("listS", "listT")]
-    if lists:
-        return "in-" + lists[-1]
+    """input class of a position: "no-list", "in-listS" (a field of the item itself), or "in-listS/sub",
+    "in-listT/ctype/deeper", ... (outermost configuration list, then the first container between the item and the
+    field, "deeper" when there are more)"""
+    for i, w in enumerate(where):
+        if w in ("listS", "listT"):
+            rest = tuple(where[i + 1:])
+            return "/".join(("in-" + w,) + (rest if len(rest) <= 1 else (rest[0], "deeper")))
     return "no-list"
 
 
@@ -450,13 +454,13 @@ def _kind_at(block, p):
 
 # -------------------------------------------------------------------------------------------- enumeration
 
-def leaf_block(mode, kinds, tag=""):
+def leaf_block(mode, kinds, tag="", only_nonsens=False):
     """one sensitive and one non-sensitive field of every kind; mode: truthy | falsy | unset | mixed"""
     out = []
     for i, kind in enumerate(kinds):
         tv_s, tv_n, fv = LEAF_VALUES[kind]
         for sens in (True, False):
-            if not sens and tv_n is None:
+            if (not sens and tv_n is None) or (sens and only_nonsens):
                 continue
             f = {"k": "%s_%s%s" % ("s" if sens else "n", kind.lower(), tag), "t": kind, "s": sens}
             m = mode
@@ -500,6 +504,41 @@ def shape_spec(shape, mode, kinds):
             block.append({"k": "c%d" % i, "t": t, "items": [first, second]})
         return block
     return level(0)
+
+
+ITEM_PATTERNS = [("truthy", "falsy"), ("falsy", "truthy"), ("falsy", "unset", "truthy"), ("truthy", "truthy", "falsy"),
+                 ("unset", "falsy"), ("mixed", "falsy", "mixed")]
+
+
+def deep_spec(shape, pattern, kinds):
+    """shape[0] is a configuration list; the sensitive fields sit only at the innermost level: the root, the item's
+    own top level and every level in between have NON-sensitive fields only.  The items of the outer list follow
+    `pattern` (value mode of the innermost block per item: only SOME items hold a truthy sensitive value)."""
+    def level(i, mode):
+        if i == len(shape):
+            return leaf_block(mode, kinds)
+        block = leaf_block("truthy", ["String", "Int"], tag=str(i), only_nonsens=True)
+        t = shape[i]
+        if t in ("sub", "ctype"):
+            block.append({"k": "c%d" % i, "t": t, "b": level(i + 1, mode)})
+        elif i == 0:
+            block.append({"k": "c%d" % i, "t": t, "items": [level(i + 1, m) for m in pattern]})
+        else:
+            block.append({"k": "c%d" % i, "t": t,
+                          "items": [level(i + 1, mode), level(i + 1, "falsy" if mode == "truthy" else "truthy")]})
+        return block
+    return level(0, pattern[0])
+
+
+def deep_shapes():
+    out = []
+    for first in ("listS", "listT"):
+        for c1 in CONTAINERS:
+            out.append((first, c1))
+        for c1 in CONTAINERS:
+            for c2 in CONTAINERS:
+                out.append((first, c1, c2))
+    return out
 
 
 def _revalue(block, mode):
@@ -594,6 +633,20 @@ def _plan(tier):
                     runs.append((m, FORMATS[n % len(FORMATS)]))
                     n += 1
                 plan.append((shape, mode, QUICK_DEEP_KINDS, runs))
+    # sensitive fields DEEPER inside the items of a configuration list (item.sub.secret, item.t.secret,
+    # item.lst[j].secret, ...), nothing sensitive on the item's own top level; only some items hold a value
+    for shape in deep_shapes():
+        for pi, pattern in enumerate(ITEM_PATTERNS):
+            if tier == "quick":
+                runs = []
+                for m in MASKS:
+                    runs.append((m, "tree"))
+                    if m is not None and (len(shape) == 2 or pi % 2 == 0):
+                        runs.append((m, FORMATS[n % len(FORMATS)]))
+                        n += 1
+            else:
+                runs = [(m, o) for m in MASKS for o in outs]
+            plan.append((shape, "deep:" + "/".join(pattern), QUICK_DEEP_KINDS if tier == "quick" else LEAF_KINDS, runs))
     return plan
 
 
@@ -613,14 +666,20 @@ def rac(tier: str, seed: int) -> dict:
               "json/yaml/xml/bson/pickle decoded back (+ raw bytes scan). quick: depth <= 1 full cross (5 shapes x 4 "
               "modes x 5 masks x 6 outputs), depth 2 (16 shapes x 4 modes x 5 masks x {tree, 1 rotating format}), "
               "depth 3 (64 shapes x 2 modes x masks {'*','XX'} x {tree, 1 rotating format}, %d kinds); thorough: "
-              "full cross at every depth until the budget is used" % len(QUICK_DEEP_KINDS),
+              "full cross at every depth until the budget is used.  Plus 40 'deep' shapes (ListField(Schema) / "
+              "ListField(config type) at the root, then 1-2 containers inside the item, sensitive fields ONLY at "
+              "the innermost level) x %d item patterns (which items hold a truthy / falsy / unset value) x 5 masks "
+              "x {tree, 1 rotating format}" % (len(QUICK_DEEP_KINDS), len(ITEM_PATTERNS)),
         tier=tier, seed=seed)
     with sandbox():
         n = 0
         for shape, mode, kinds, runs in _plan(tier):
             if tier != "quick" and rec.out_of_time():
                 break
-            block = shape_spec(shape, mode, kinds)
+            if mode.startswith("deep:"):
+                block = deep_spec(shape, tuple(mode[5:].split("/")), kinds)
+            else:
+                block = shape_spec(shape, mode, kinds)
             ctx = Ctx(block)
             for mask, out in runs:
                 findings = ctx.run(mask, out)
